@@ -28,6 +28,7 @@ type c03Case struct {
 	Coalesce bool   `json:"coalesce"`
 	NotifAt  int    `json:"notif_at,omitempty"` // handler returns a notification at the j-th UPDATE (1-based), 0 = never
 	Inbound  bool   `json:"inbound"`
+	Fin      bool   `json:"fin_after_stream,omitempty"` // the remote half-closes right after the last byte
 	Note     string `json:"note,omitempty"`
 }
 
@@ -100,6 +101,10 @@ func c03Run(cs c03Case, ch vrt.Chooser, trace bool) (*world.World, *vrt.Exec, *w
 				}
 				r.Send(stream[prev:])
 			}
+			if cs.Fin {
+				// everything sent before the FIN must still be delivered
+				r.C.CloseWrite()
+			}
 			// wait until everything expected was delivered (bounded)
 			vrt.NewTimer(5 * time.Second)
 			deadline := vrt.Cur().Now() + int64(5*time.Second)
@@ -107,7 +112,7 @@ func c03Run(cs c03Case, ch vrt.Chooser, trace bool) (*world.World, *vrt.Exec, *w
 				return vrt.Cur().Now() >= deadline || w.Count("Handler", "exit", "P1") >= expectDeliveries
 			})
 			vrt.LogTouch()
-			if cs.NotifAt > 0 && cs.NotifAt <= nUpd {
+			if cs.Fin || cs.NotifAt > 0 && cs.NotifAt <= nUpd {
 				r.Deadline(5 * time.Second)
 				r.Drain()
 			}
@@ -305,6 +310,17 @@ func c03Check(c *harness.Ctx) {
 				}
 			}
 		}
+		// the stream is immediately followed by FIN: nothing that was sent may be lost
+		for _, ch := range []int{0, 1, 19, 4096} {
+			if ch == 1 && big > 0 {
+				continue
+			}
+			for _, co := range []bool{false, true} {
+				if !run(c03Case{Msgs: msgs, Chunk: ch, Coalesce: co, Fin: true, Inbound: (si+ch)%2 == 0}) {
+					return
+				}
+			}
+		}
 		// handler notification at the j-th UPDATE
 		for j := 1; j <= 3; j++ {
 			for _, ch := range []int{0, 1, 19} {
@@ -333,7 +349,7 @@ func c03Check(c *harness.Ctx) {
 		if skip {
 			continue
 		}
-		for _, cs := range []c03Case{{Msgs: msgs, Chunk: 0}, {Msgs: msgs, Chunk: 7}, {Msgs: msgs, Chunk: 0, NotifAt: 1}, {Msgs: msgs, Chunk: 19, Inbound: true}} {
+		for _, cs := range []c03Case{{Msgs: msgs, Chunk: 0}, {Msgs: msgs, Chunk: 7}, {Msgs: msgs, Chunk: 0, NotifAt: 1}, {Msgs: msgs, Chunk: 19, Inbound: true}, {Msgs: msgs, Chunk: 0, Fin: true}} {
 			k++
 			if !c.Mine(k) {
 				continue
